@@ -287,7 +287,34 @@ def corpus_histories(kind):
         h.op('Q 1320 1020 -')
         h.op('Q 1120 1120 -')
         out.append(h)
+        # K1 (known finding): keys sharing more than 7 bytes below a branch point
+        h = Hist('bytes', 'corpus-k1-long-shared-run')
+        h.ins('61616161616161616158', '01')
+        h.ins('61616161616161616159', '02')
+        h.get('61616161616161616158')
+        h.get('61616161616161616159')
+        out.append(h)
     return out
+
+
+def compressible(keys):
+    """every compressed path of the radix tree of the key set has length <= 7"""
+    ks = sorted(set(bytes.fromhex(k) for k in keys if k != '-'))
+
+    def ok(ks, depth):
+        if len(ks) <= 1:
+            return True
+        d = depth
+        while len(set(k[d] if d < len(k) else None for k in ks)) == 1:
+            d += 1
+        if d - depth > 7:
+            return False
+        groups = {}
+        for k in ks:
+            groups.setdefault(k[d] if d < len(k) else None, []).append(k)
+        return all(ok(g, d + 1) for g in groups.values())
+
+    return ok(ks, 0)
 
 
 def histories(tier, seed, kind, scan_ops=True):
